@@ -63,13 +63,13 @@ def record(rec, kind, res, tag_ct, plaintext, events):
 
 
 def hist_loop(rec, keysdir, n, events, kind="loop-same-plaintext"):
-    """first half: a fresh encryptor object per call; second half: one encryptor object reused for every call"""
+    """blocks of 400 calls alternate between a fresh encryptor object per call and ONE encryptor object reused for every call"""
     for i in range(n):
         if rec.out_of_time():
             rec.count("stopped_by_wall_clock_cap")
             break
         pt = PT if i % 10 else PT + bytes([i % 251])
-        reuse = i >= n // 2
+        reuse = (i // 400) % 2 == 1      # alternating blocks: a wall-clock cap that ends the loop early leaves both kinds observed
         res, tc = encrypt_once(keysdir, pt, reuse=reuse)
         record(rec, kind + ("-one-encryptor-object" if reuse else ""), res, tc, pt, events)
 
